@@ -451,6 +451,141 @@ def htpasswd_suite(ctx):
                                                       model=ctx.coq_show(X.HEADER, "run_htpasswd %s" % H.enc_hcase(cases[bad[0]][0])))
 
 
+# ====================================================================================== socket suite (built-in server)
+POLLUTION = {"REMOTE_USER": "leakadmin", "HTTP_X_REMOTE_USER": "leakadmin", "HTTP_REMOTE_USER": "leakadmin", "AUTH_USER": "leakadmin",
+             "REMOTE_IDENT": "leakadmin", "HTTP_X_FORWARDED_USER": "leakadmin", "HTTP_AUTHORIZATION": "Basic bGVha2FkbWluOnB3",
+             "HTTP_X_FORWARDED_FOR": "10.9.9.9", "HTTP_X_SCRIPT_NAME": "/leak", "CONTENT_TYPE": "text/xml; charset=bogus",
+             "RV_C05_MARKER": "leak-marker"}
+
+
+def environ_of_request(rq):
+    """What a WSGI server may put into the environ FOR THIS REQUEST (mirror of wsgiref + RequestHandler.get_environ);
+    in particular never REMOTE_USER, and nothing of the process environment."""
+    env = {"REQUEST_METHOD": rq["method"], "PATH_INFO": urllib.parse.unquote(rq["path"].split("?", 1)[0]), "SCRIPT_NAME": "",
+           "CONTENT_TYPE": "text/plain"}
+    for k, v in rq["headers"]:
+        key = k.upper().replace("-", "_")
+        if key not in ("CONTENT_TYPE", "CONTENT_LENGTH"):
+            key = "HTTP_" + key
+        env[key] = v.strip()
+    return env
+
+
+def socket_suite(ctx):
+    """The same gate, reached through the REAL built-in server over a socket, the server process having identity-looking
+    variables in its own environment: the environ the application sees is a function of the request alone."""
+    import base64
+    from radicale import config
+    rng = ctx.rng
+    conf0 = config.load()
+    jobs = []
+    kinds = ["remote_user", "http_x_remote_user", "none", "denyall", X.PLUGIN]
+    for kind in kinds:
+        cfg = dict(kind=kind, lc=False, uc=False, sd=kind == X.PLUGIN, script_name="", internal=True, max_len=100000000)
+        reqs = []
+        for i in range(ctx.n(14, 80)):
+            login, pw = rng.choice(["alice", "Bob", "bob@example.com", "a/b", "..", "carol"]), rng.choice(["pw", "p:w", ""])
+            good = base64.b64encode(("%s:%s" % (login, pw)).encode()).decode()
+            headers = []
+            a = rng.choice([None, None, "Basic " + good, "Basic " + good, "Basic" + good, "basic " + good, "Basic !!!",
+                            "Basic " + base64.b64encode(login.encode()).decode(), "Bearer x"])
+            if a is not None:
+                headers.append(["Authorization", a])
+            for h in ("X-Remote-User", "Remote-User", "X-Forwarded-User", "X-User"):
+                if rng.random() < 0.3:
+                    headers.append([h, rng.choice(["admin", "root", "alice", "mallory,alice"])])
+            if rng.random() < 0.15:
+                headers.append(["X-Forwarded-For", "10.0.0.1"])
+            if rng.random() < 0.15:
+                headers.append(["X-Script-Name", rng.choice(["/sn", "sn"])])
+            if rng.random() < 0.2:
+                headers.append(["Content-Type", rng.choice(["text/xml; charset=utf-8", "text/xml"])])
+            if i < 3:
+                headers = []                      # the plain credential-less request
+            rq = dict(method=rng.choice(["PROPFIND", "PROPFIND", "GET", "PUT", "OPTIONS", "MKCOL", "FOO"]) if i >= 3 else "PROPFIND",
+                      path=rng.choice(["/", "/alice/", "/alice/cal/?x=1", "/.well-known/caldav", "/a%20b/"]) if i >= 3 else "/", headers=headers)
+            env = environ_of_request(rq)
+            login_seen, pw_seen, decode = [], [""], []
+            araw = env.get("HTTP_AUTHORIZATION", "")
+            if araw.startswith("Basic") and araw[5:].strip().isascii():
+                text = X.ext_decode(conf0, env.get("CONTENT_TYPE", ""), araw[5:].strip())
+                decode.append((env.get("CONTENT_TYPE", ""), araw[5:].strip(), text))
+                if text is not None and ":" in text:
+                    login_seen.append(text.split(":", 1)[0])
+                    pw_seen.append(text.split(":", 1)[1])
+            login_seen += [v for k, v in env.items() if k in X.IDENTITY_KEYS and v not in login_seen] + ["leakadmin"]
+            script, backend, users = {}, [], []
+            for l in login_seen:
+                for c in X.candidates(l):
+                    res = {"echo": c, "empty": "", "other": "carol", "unsafe": c + "/x"}[rng.choice(["echo", "echo", "echo", "empty", "other", "unsafe"])]
+                    for q in dict.fromkeys(pw_seen):
+                        if (c, q) not in script:
+                            script[(c, q)] = res
+                            backend.append((c, q, res))
+                    for u in (res, c):
+                        if u not in users:
+                            users.append(u)
+            strings = [rq["method"]] + login_seen
+            rq.update(script=[[l, q, r] for (l, q), r in script.items()], rights_w=[u for u in users if rng.random() < 0.7], users=users,
+                      handler=rng.choice(["na", "na", "ok", "multi"]))
+            rq["_case"] = dict(env=env, shape="socket", decode=decode, upper=[(x, x.upper()) for x in dict.fromkeys(strings + [x.lower() for x in strings])],
+                               lower=[(x, x.lower()) for x in dict.fromkeys(strings)], script=script, backend=backend, users=users,
+                               rights_w=rq["rights_w"], precreate=[], handler=rq["handler"], race=None)
+            reqs.append(rq)
+        jobs.append(dict(cfg=cfg, requests=reqs))
+    d = ctx.scratch()
+    spec, outp = os.path.join(d, "c05_socket_spec.json"), os.path.join(d, "c05_socket_out.json")
+    json.dump(dict(pollution=POLLUTION, jobs=[dict(cfg=j["cfg"], requests=[{k: v for k, v in r.items() if k != "_case"} for r in j["requests"]])
+                                              for j in jobs]), open(spec, "w"))
+    rc, out = core.sh([core.PY, os.path.join(core.VERIF, "vlib/drivers/c05_socket_driver.py"), spec, outp], timeout=ctx.n(240, 900))
+    if rc != 0 or not os.path.exists(outp):
+        ctx.obligation("socket:driver-ran", False, out[-1500:])
+        return
+    res = json.load(open(outp))
+    penv = res["process_env"]
+    cases, leaks = [], 0
+    for j, rs in zip(jobs, res["jobs"]):
+        cfg = j["cfg"]
+        for rq, r in zip(j["requests"], rs):
+            case = rq["_case"]
+            case["exists"] = r["exists"]
+            case["exists_w"] = r["exists"]
+            events = [tuple(e) for e in r["events"]]
+            created = [e for e in events if e[0] == "home" and e[2]]
+            o = dict(status=r["status"], www=r["www"] is not None, www_value=r["www"], location=r["location"], events=events, raced=False,
+                     store_changed=bool(created), new_entries=[])
+            cases.append(((cfg, case), o))
+            ctx.case(("socket", cfg["kind"], rq["method"], rq["path"], tuple(map(tuple, rq["headers"])), rq["handler"],
+                      tuple(sorted((k, str(v)) for k, v in case["script"].items()))), nontrivial=True,
+                     sample=dict(suite="socket", auth_type=cfg["kind"], request=[rq["method"], rq["path"], rq["headers"]], status=r["status"],
+                                 events=r["events"]) if len(cases) == 2 else None)
+            ctx.count("socket:status:%d" % r["status"])
+            rep = dict(kind="socket", cfg=cfg, pollution=POLLUTION, request=dict(method=rq["method"], path=rq["path"], headers=rq["headers"]),
+                       status=r["status"], events=r["events"])
+            seen = r["environ"] or {}
+            leaked = {k: v for k, v in sorted(seen.items(), key=lambda kv: (kv[0] not in POLLUTION, kv[0]))
+                      if k in penv and penv[k] == v and case["env"].get(k) != v}
+            if leaked:
+                leaks += 1
+                if leaks <= 2:
+                    ctx.violation("C05 socket: variables of the server PROCESS environment are in the request's WSGI environ: %r" % (
+                        dict(list(leaked.items())[:6]),), dict(rep, leaked=leaked), signature="process-environment-in-wsgi-environ")
+            err = gate_monitor(cfg, case, o)
+            if err:
+                ctx.count("socket:violation")
+                if ctx.distribution["socket:violation"] <= 3:
+                    ctx.violation("C05 socket (built-in server, process environment %r): %s" % (
+                        {k: v for k, v in POLLUTION.items() if "USER" in k}, err), rep)
+    ctx.extra["socket_requests"] = len(cases)
+    bad = diff_batched(ctx, "c05_sock", GATE_FN, cases, X.enc_gcase, X.enc_gobs, "eq_gobs", shard=100)
+    if bad is not None:
+        ctx.obligation("correspondence:socket-gate", not bad,
+                       "" if not bad else "gate model on the environ derived from the REQUEST differs from the built-in server on %d of %d requests; "
+                       "first: auth type %s, request %r, observed status %d events %r" % (
+                           len(bad), len(cases), cases[bad[0]][0][0]["kind"], cases[bad[0]][0][1]["env"], cases[bad[0]][1]["status"],
+                           cases[bad[0]][1]["events"]))
+
+
 # ====================================================================================== live monitor (real handlers)
 PRINCIPAL_BODY = ('<?xml version="1.0"?><D:propfind xmlns:D="DAV:"><D:prop><D:current-user-principal/></D:prop></D:propfind>')
 
@@ -651,6 +786,8 @@ def run(ctx):
     ctx.log("htpasswd suite done")
     live_monitor(ctx)
     ctx.log("live monitor done")
+    socket_suite(ctx)
+    ctx.log("socket suite done")
 
 
 def replay(ctx, path):
@@ -668,6 +805,20 @@ def replay(ctx, path):
         v = ht_monitor(case, res)
         print("REPLAY monitor:", v)
         return 1 if v else 0
+    if rp.get("kind") == "socket":
+        d = tempfile.mkdtemp(prefix="rv-c05r-")
+        try:
+            rq = dict(rp["request"], script=[], rights_w=["leakadmin"], users=["leakadmin"], handler="ok")
+            json.dump(dict(pollution=rp["pollution"], jobs=[dict(cfg=rp["cfg"], requests=[rq])]), open(os.path.join(d, "s.json"), "w"))
+            rc, out = core.sh([core.PY, os.path.join(core.VERIF, "vlib/drivers/c05_socket_driver.py"), os.path.join(d, "s.json"),
+                               os.path.join(d, "o.json")], timeout=120)
+            r = json.load(open(os.path.join(d, "o.json")))["jobs"][0][0]
+        finally:
+            shutil.rmtree(d, ignore_errors=True)
+        ident = {k: v for k, v in (r["environ"] or {}).items() if k in rp["pollution"] and rp["pollution"][k] == v}
+        print("REPLAY over the socket on %s: status %d, events %r, process-environment variables in the WSGI environ: %r" % (
+            core.REPO, r["status"], r["events"], ident))
+        return 1 if ident or any(e[0] == "dispatch" and e[4] for e in r["events"]) else 0
     if rp.get("kind") == "gate":
         cfg, jc = rp["cfg"], rp["case"]
         case = dict(jc, script={(l, pw): (plug.RAISE if r is None else r) for l, pw, r in jc["script"]}, decode=[], upper=[], lower=[], backend=[])
